@@ -44,11 +44,21 @@ pub fn run(sh: &mut shell::Shell, cl: &CommandLine, cmd: &Command,
     CommandResult::new()
 }
 
+/// Quote a value so that the printed definition recreates it: single quotes,
+/// or double quotes when the value itself contains single quotes.
+fn quote_alias_value(value: &str) -> String {
+    if value.contains('\'') && !value.contains('"') {
+        format!("\"{}\"", value)
+    } else {
+        format!("'{}'", value)
+    }
+}
+
 fn show_alias_list(sh: &shell::Shell, cmd: &Command,
                    cl: &CommandLine, capture: bool) -> CommandResult {
     let mut lines = Vec::new();
     for (name, value) in sh.get_alias_list() {
-        let line = format!("alias {}='{}'", name, value);
+        let line = format!("alias {}={}", name, quote_alias_value(&value));
         lines.push(line);
     }
     let buffer = lines.join("\n");
@@ -61,7 +71,7 @@ fn show_single_alias(sh: &shell::Shell, name_to_find: &str, cmd: &Command,
                      cl: &CommandLine, capture: bool) -> CommandResult {
     let mut cr = CommandResult::new();
     if let Some(content) = sh.get_alias_content(name_to_find) {
-        let info = format!("alias {}='{}'", name_to_find, content);
+        let info = format!("alias {}={}", name_to_find, quote_alias_value(&content));
         print_stdout_with_capture(&info, &mut cr, cl, cmd, capture);
     } else {
         let info = format!("cicada: alias: {}: not found", name_to_find);
